@@ -20,7 +20,7 @@ EXPECTED_PROBES = ["distinguishing_reuse", "lazy_resumed_after_switch",
                    "reissued_ops"]
 
 SWITCH_PATHS = ["set_mode_default", "set_mode_global", "dto_opt", "dto_env",
-                "main_opt", "main_env", "equiv", "none", "dto_noenv"]
+                "main_opt", "main_env", "equiv", "none", "dto_noenv", "case"]
 
 HOT_YEARS = [-2000, -401, -400, -100, -4, -1, 0, 1, 4, 100, 400, 1600, 1700,
              1900, 1970, 1999, 2000, 2001, 2004, 2019, 2020, 2023, 2024,
@@ -123,10 +123,14 @@ def gen_dur(rng):
     sign = "-" if rng.random() < 0.3 else ""
     if r < 0.86:
         return "%sP%dD" % (sign, rng.choice(
-            [rng.randint(1, 1000)] * 3 + [rng.randint(1000, 200000)]))
+            [rng.randint(1, 1000)] * 6 + [rng.randint(1000, 200000)] * 2 +
+            # now and then beyond any block of millennia an implementation
+            # might treat specially (2800 years are 1.02 million days)
+            [rng.randint(10 ** 6, 2 * 10 ** 6)]))
     if r < 0.9:
         return "%sPT%dH" % (sign, rng.choice(
-            [rng.randint(1, 20000)] * 3 + [rng.randint(1, 4000000)]))
+            [rng.randint(1, 20000)] * 6 + [rng.randint(1, 4000000)] * 2 +
+            [rng.randint(24 * 10 ** 6, 4 * 10 ** 7)]))
     if r < 0.94:
         return "%sP%dM" % (sign, rng.randint(1, 3000))
     if r < 0.97:
@@ -486,6 +490,8 @@ def directed_ops():
         for d in ("P1D", "P2D", "P1M", "P1Y", "-P1M", "P59D", "P400D",
                   "P1W", "P1Y1M", "P150000D", "-P147000D"):
             ops.append(["add", p, d])
+        if p.startswith(("2000-02", "2000-W")):
+            ops.append(["add", p, "P1100000D"])       # beyond 2800 years
         ops += [["reprs", p], ["props", p], ["epoch", p], ["tz", p, 13, 0],
                 ["dump", p, "CCYY-DDD"], ["dump", p, "CCYY-Www-D"],
                 ["dump", p, "%Y %j"], ["dump", p, "%s"],
@@ -945,7 +951,27 @@ class Sim(object):
             sp = model.EQUIV[sp]
         expect = sp
         with kernel.guarded():
-            if path in ("set_mode_default", "equiv"):
+            if path == "case":
+                # set_mode looks the name up case-insensitively: the same
+                # calendar written 'Gregorian' / '360DAY' (by API, operator
+                # option or environment variable).  An implementation that
+                # refuses such a spelling is given the plain one.
+                spelled = sp.upper() if step_no % 2 else sp.capitalize()
+                how = step_no % 3
+                try:
+                    if how == 0:
+                        data.Calendar.default().set_mode(spelled)
+                    elif how == 1:
+                        DateTimeOperator(calendar_mode=spelled)
+                    else:
+                        self.set_env_cal(spelled)
+                        DateTimeOperator()
+                    self.count("probe.mode_name_other_case")
+                except Exception:
+                    self.set_env_cal(None)
+                    data.Calendar.default().set_mode(sp)
+                    self.count("probe.mode_name_other_case_refused")
+            elif path in ("set_mode_default", "equiv"):
                 data.Calendar.default().set_mode(sp)
             elif path == "set_mode_global":
                 data.CALENDAR.set_mode(sp)
